@@ -28,6 +28,11 @@ SAVED = {
     "work-todo": "W #work o",                 # names are file names: dashes, dots and sub-directories are legal
     "team/open": "W o %bob",
     "diamond": "W {works} {nested}",          # `works` is reached along two paths (acyclic)
+    "hot": "W {either} +proj1",               # a shared saved query that itself contains a reference ...
+    "hot-open": "W o {hot}",                  # ... reached along two different paths
+    "hot-note": "W - {hot}",
+    "parens": "W (+proj1 #work) | (@home o)",  # top-level `|` between parenthesised alternatives
+    "parens2": "W (o | x) +proj1 | (%bob)",
 }
 
 
@@ -111,14 +116,17 @@ def is_f23(case) -> bool:
     kind / priority atoms of the surrounding group (or of another reference) instead of being conjoined with them."""
     if not case.get("refs"):
         return False
-    groups = []
-    for p in case.get("parts", []):
-        if p.startswith("{"):
-            t = unparenthesised(p[1:-1])
-            groups.append([w for w in _top_words(t) if _pools(w)] if " | " not in t else [])
-        else:
-            groups.append([p] if _pools(p) else [])
-    return sum(1 for g in groups if g) >= 2
+    for parts in case.get("groups") or [case.get("parts", [])]:
+        groups = []
+        for p in parts:
+            if p.startswith("{"):
+                t = unparenthesised(p[1:-1])
+                groups.append([w for w in _top_words(t) if _pools(w)] if " | " not in t else [])
+            else:
+                groups.append([p] if _pools(p) else [])
+        if sum(1 for g in groups if g) >= 2:
+            return True
+    return False
 
 
 def references(tier, seed):
@@ -126,7 +134,7 @@ def references(tier, seed):
     from zorg.service.swog._saved_queries import expand_saved_queries
 
     rng = random.Random(seed * 23 + 6)
-    n = 80 if tier == "quick" else 1000
+    n = 200 if tier == "quick" else 2000
     fails, samples, nontriv = [], [], 0
     with Lab() as lab:
         for rel, t in C03.PAGES.items():
@@ -136,14 +144,18 @@ def references(tier, seed):
             lab.write(f"zoq/{name}.zoq", f"# {q}\n#\n# SAVED QUERY GENERATED ON never.\n\nstale results\n")
         atoms = ["#work", "o", "-", "%bob", "f=p1", "n:5", "'note'", "P1-4", "[[p2]]", "!+proj2", "(x | ~)"]
         for i in range(n):
-            refs = rng.sample(list(SAVED), rng.randint(1, 2))
-            others = rng.sample(atoms, rng.randint(0, 2))
-            parts = others + ["{" + r + "}" for r in refs]
-            rng.shuffle(parts)
-            alt = rng.random() < 0.25
-            q = " ".join(parts) + (" | #work" if alt else "")
-            explicit = " ".join(p if not p.startswith("{") else "(" + where_of(p[1:-1]) + ")" for p in parts) + (" | #work" if alt else "")
-            case = {"query": q, "explicit": explicit, "refs": refs, "juxtaposed": len(parts) > 1, "parts": parts}
+            # one or two alternatives; each is a juxtaposition of ordinary atoms and references
+            groups, refs = [], []
+            for gi in range(1 if rng.random() < 0.6 else 2):
+                r = rng.sample(list(SAVED), rng.randint(1, 2) if gi == 0 else rng.randint(0, 2))
+                others = rng.sample(atoms, rng.randint(0, 2) if r else rng.randint(1, 2))
+                parts = others + ["{" + x + "}" for x in r]
+                rng.shuffle(parts)
+                groups.append(parts)
+                refs += r
+            q = " | ".join(" ".join(parts) for parts in groups)
+            explicit = " | ".join(" ".join(p if not p.startswith("{") else "(" + where_of(p[1:-1]) + ")" for p in parts) for parts in groups)
+            case = {"query": q, "explicit": explicit, "refs": refs, "juxtaposed": any(len(parts) > 1 for parts in groups), "parts": groups[0], "groups": groups}
             try:
                 a = zids(execute(lab.zdir, lab.db_url, f"S note W {q} G none"))
                 b = zids(execute(lab.zdir, lab.db_url, f"S note W {explicit} G none"))
@@ -166,7 +178,7 @@ def references(tier, seed):
                 fails.append({"query": q, "refs": [], "error": f"unexpected {type(e).__name__}: {str(e)[:100]}"})
             if expand_saved_queries(lab.zdir, q) is not None:
                 fails.append({"query": q, "refs": [], "error": "expand_saved_queries did not return None for a missing saved query"})
-    return {"name": "references", "bound": f"{n} referencing queries (0-2 ordinary atoms + 1-2 references, optionally an alternative) over 10 saved queries (names with '-' and '/', a diamond-shaped reference graph) (alternatives, nested references depth 3, S/O/G clauses) on a fixture index; + 3 missing-reference queries",
+    return {"name": "references", "bound": f"{n} referencing queries (one or two alternatives of 0-2 ordinary atoms + 0-2 references) over 15 saved queries (names with '-' and '/', a diamond-shaped reference graph) (alternatives, nested references depth 3, S/O/G clauses) on a fixture index; + 3 missing-reference queries",
             "evaluations": n + 3, "distinct_nontrivial": nontriv, "failures": fails, "samples": samples, "replay_fn": "replay_ref"}
 
 
